@@ -37,6 +37,7 @@ type Engine struct {
 	moduleInits  []*ssa.Function
 	srcLines     map[string][]string
 	hmu          sync.Mutex
+	srcMu        sync.Mutex
 	Fset         *token.FileSet
 }
 
@@ -620,6 +621,8 @@ func (x *Exec) siteOf(fr *frame, in ssa.Instruction) string {
 }
 
 func (e *Engine) sourceLine(file string, line int) string {
+	e.srcMu.Lock()
+	defer e.srcMu.Unlock()
 	if e.srcLines == nil {
 		e.srcLines = map[string][]string{}
 	}
@@ -1429,8 +1432,25 @@ func (x *Exec) typeAssert(fr *frame, i *ssa.TypeAssert) Value {
 }
 
 func (x *Exec) nativeImplements(iv *IfaceV, t types.Type) bool {
-	_, isErr := iv.V.(*ErrObj)
-	return isErr && t.String() == "error"
+	if _, isErr := iv.V.(*ErrObj); isErr {
+		return t.String() == "error"
+	}
+	// a library object kept as a native: it implements the interface when the
+	// engine has a contract for methods of it
+	if n, ok := iv.V.(*Native); ok {
+		it, ok := t.Underlying().(*types.Interface)
+		if !ok || it.NumMethods() == 0 {
+			return ok
+		}
+		// (a method without contract ends the path as inconclusive when it is called)
+		for i := 0; i < it.NumMethods(); i++ {
+			if x.E.NativeMeth[n.Kind+"."+it.Method(i).Name()] != nil {
+				return true
+			}
+		}
+		return false
+	}
+	return false
 }
 
 // ---- ranges
